@@ -5,6 +5,7 @@ import Tuc.Model.Lines
 import Tuc.Model.Chars
 import Tuc.Model.Args
 import Tuc.Model.Faults
+import Tuc.Model.Regex
 import Tuc.Spec.Record
 import Tuc.Spec.Lines
 import Tuc.Spec.Grammar
@@ -123,7 +124,10 @@ def buildOpt (kv : Kv) : Except String Opt := do
     if bt = .characters then pure (some charsBag)
     else match kv.optBytes "re" with
       | none => pure none
-      | some _ => throw "unmodelled"
+      | some reText =>
+        match Re.parse (bytesToChars reText) with
+        | some r => if (Re.run 1 r [] some).isSome then throw "unmodelled" else pure (some r.bag)
+        | none => throw "unmodelled"
   let trim : Option Trim := match kv.get? "t" with
     | some "l" => some .left | some "r" => some .right | some "b" => some .both | _ => none
   pure {
@@ -296,6 +300,15 @@ def runCase (line : String) : String :=
         | .panic => "panic"
     | "cut" => runCut kv
     | "decide" => renderDecision (decision (flagsOfKv kv))
+    | "rematch" =>
+      match Re.parse (bytesToChars (unhex ((kv.get? "re").getD ""))) with
+      | some r =>
+        if (Re.run 1 r [] some).isSome then "unmodelled"
+        else
+          let inp := (kv.optBytes "in").getD []
+          let f := fun (ms : List (Nat × Nat)) => String.intercalate "," (ms.map fun (a, b) => s!"{a}:{b}")
+          s!"ok n={f (r.bag.normal inp)} g={f (r.bag.greedy inp)}"
+      | none => "unmodelled"
     | _ => "badcase"
 
 partial def loop (i o : IO.FS.Stream) : IO Unit := do
